@@ -171,6 +171,11 @@ def gen_cases(ctx, n):
                    args=args, vars=vars_, names=rng.choice(DIRS), cmd_out=CMDS, arith=ARITH, tag="rand")
         c.value = None
         cases.append(c)
+    # tilde prefixes (~ ~/x ~+ ~- ~N ~user) whose target holds blanks, glob characters, newlines
+    for _ in range(max(1, n // 8)):
+        c = X.gen_tilde_case(rng, IFSES, OPTSETS, DIRS, ctxs=("arg", "arg", "arrelem"))
+        c.cmd_out, c.arith = CMDS, ARITH
+        cases.append(c)
     return cases
 
 
@@ -644,8 +649,8 @@ def evaluate_brace(ctx, n):
 
 
 def describe(c):
-    return {"ctx": c.ctx, "word": c.text, "ifs": c.ifs, "opts": c.opts, "args": c.args,
-            "vars": [(n, v) for n, v in c.vars if n != "HOME"], "dir": c.names if len(c.names) < 8 else "DIRS[0]",
+    return {"ctx": c.ctx, "word": c.text, "ifs": c.ifs, "opts": c.opts, "args": c.args, "cwdsub": getattr(c, "cwdsub", None),
+            "vars": [(n, v) for n, v in c.vars if n != "HOME" or c.tag == "tilde"], "dir": c.names if len(c.names) < 8 else "DIRS[0]",
             "value": None}
 
 
